@@ -147,6 +147,9 @@ def check(index, ctx):
                     tn, val = a_.targets[0].id, a_.value
                 elif isinstance(a_, ast.NamedExpr) and isinstance(a_.target, ast.Name):
                     tn, val = a_.target.id, a_.value
+                if isinstance(val, ast.IfExp) and norm_text(val.body) == f"{owner}.grad" and isinstance(val.orelse, ast.Constant) and val.orelse.value is None \
+                        and norm_text(val.test).replace('"', "'") == f"hasattr({owner}, 'grad')":
+                    val = ast.parse(f"getattr({owner}, 'grad', None)", mode="eval").body  # `x.grad if hasattr(x, "grad") else None`
                 if tn is not None and (norm_text(val) == f"{owner}.grad" or norm_text(val).replace('"', "'") == f"getattr({owner}, 'grad', None)"):
                     n_binds = sum(1 for x in ast.walk(fn.node) if isinstance(x, ast.Name) and x.id == tn and isinstance(x.ctx, ast.Store))
                     if n_binds == 1:
